@@ -126,6 +126,9 @@ type Gen struct {
 	tags        map[string]string
 	abstracted  map[string]int
 	callOrd     map[string]int
+	callOrdinal map[*ssa.CallCommon]int
+	retOrdinal  map[*ssa.Return]int
+	curRet      *ssa.Return
 	defers      []*ssa.Defer
 	usedAxioms  map[string]bool
 	closures    map[ssa.Value]*ssa.MakeClosure
@@ -355,7 +358,7 @@ func (g *Gen) needStr() {
 	g.sortSet["Str"] = true
 	g.sortDecls = append(g.sortDecls, "(declare-sort Str 0)")
 	g.decls = append(g.decls, "(declare-fun slen (Str) Int)", "(declare-fun sat (Str Int) Int)")
-	g.global("(forall ((s Str)) (! (>= (slen s) 0) :pattern ((slen s))))")
+	g.global("(forall ((s Str)) (! (and (>= (slen s) 0) (<= (slen s) 9223372036854775807)) :pattern ((slen s))))")
 	g.global("(forall ((s Str) (i Int)) (! (and (<= 0 (sat s i)) (<= (sat s i) 255)) :pattern ((sat s i))))")
 }
 
@@ -650,6 +653,55 @@ func (g *Gen) analyzeCFG() {
 		}
 		g.anc[b] = a
 	}
+	// source-order ordinals for calls (per callee label) and returns: obligation names must not
+	// depend on the order in which blocks happen to be processed
+	g.callOrdinal = map[*ssa.CallCommon]int{}
+	g.retOrdinal = map[*ssa.Return]int{}
+	type posCall struct {
+		pos   token.Pos
+		cc    *ssa.CallCommon
+		label string
+		seq   int
+	}
+	var pcs []posCall
+	var rets []*ssa.Return
+	nseq := 0
+	for _, b := range fn.Blocks {
+		for _, in := range b.Instrs {
+			var cc *ssa.CallCommon
+			switch in := in.(type) {
+			case *ssa.Call:
+				cc = &in.Call
+			case *ssa.Defer:
+				cc = &in.Call
+			case *ssa.Go:
+				cc = &in.Call
+			case *ssa.Return:
+				rets = append(rets, in)
+			}
+			if cc != nil {
+				if _, isB := cc.Value.(*ssa.Builtin); !isB {
+					nseq++
+					pcs = append(pcs, posCall{in.Pos(), cc, g.c.calleeLabel(cc), nseq})
+				}
+			}
+		}
+	}
+	sort.SliceStable(pcs, func(i, j int) bool {
+		if pcs[i].pos != pcs[j].pos {
+			return pcs[i].pos < pcs[j].pos
+		}
+		return pcs[i].seq < pcs[j].seq
+	})
+	cnt := map[string]int{}
+	for _, pc := range pcs {
+		cnt[pc.label]++
+		g.callOrdinal[pc.cc] = cnt[pc.label]
+	}
+	sort.SliceStable(rets, func(i, j int) bool { return rets[i].Pos() < rets[j].Pos() })
+	for i, r := range rets {
+		g.retOrdinal[r] = i + 1
+	}
 	// escape analysis for allocs
 	g.escape = map[*ssa.Alloc]bool{}
 	for _, b := range fn.Blocks {
@@ -901,7 +953,7 @@ func (g *Gen) typeFacts(term string, t types.Type) string {
 	}
 	switch u := t.Underlying().(type) {
 	case *types.Slice:
-		return fmtf("(and (<= 0 (s_off %s)) (<= 0 (s_len %s)) (<= (s_len %s) (s_cap %s)) (>= (s_arr %s) 0) (=> (= (s_arr %s) 0) (= (s_cap %s) 0)))", term, term, term, term, term, term, term)
+		return fmtf("(and (<= 0 (s_off %s)) (<= 0 (s_len %s)) (<= (s_len %s) (s_cap %s)) (<= (s_cap %s) 9223372036854775807) (>= (s_arr %s) 0) (=> (= (s_arr %s) 0) (= (s_cap %s) 0)))", term, term, term, term, term, term, term, term)
 	case *types.Pointer, *types.Map, *types.Chan, *types.Signature:
 		return fmtf("(>= %s 0)", term)
 	case *types.Interface:
